@@ -31,6 +31,24 @@ Definition clause_keys_with (keep_esc : bool) (st : sm) : option (list (list N))
   else if is_unique st then Some [unescape (s_pattern st)]
   else None.
 
+(* the same loop with the second repair (finding F63): an empty item is looked up too -- the list pattern a,,b matches the
+   empty name, and SETDATA can create a node with an empty name *)
+Fixpoint uv_loop_all (s : list N) (prevEsc : bool) (scratch : list N) : list (list N) :=
+  match s with
+  | [] => [rev scratch]
+  | c :: t =>
+    let curEsc := (c =? ch_bsl) && negb prevEsc in
+    if curEsc then uv_loop_all t true (c :: scratch)
+    else if prevEsc || negb (c =? ck_comma) then uv_loop_all t false (c :: scratch)
+    else rev scratch :: uv_loop_all t false []
+  end.
+
+Definition clause_keys_all (st : sm) : option (list (list N)) :=
+  if is_uvlist st then Some (map unescape (uv_loop_all (s_pattern st) false []))
+  else if is_unique st then Some [unescape (s_pattern st)]
+  else None.
+
 (* following the sources the translator has just read *)
 Definition clause_keys (st : sm) : option (list (list N)) :=
-  clause_keys_with (negb (c_c05_uvkeys_as_found =? 1)) st.
+  if c_c05_uvempty_as_found =? 1 then clause_keys_with (negb (c_c05_uvkeys_as_found =? 1)) st
+  else clause_keys_all st.
